@@ -720,11 +720,12 @@ def srule_correspondence(ctx, srules: list[dict[str, Any]], diags: list[dict[str
                 seen[which] = ("raised",) if got[0] == "raised" else ("ok", rewrite.canon(got[1]), {n: rewrite.canon(x) for n, x in got[2].items() if n not in r["ignore"] and n != "_"})
             if seen["old"] != seen["new"]:
                 differs[k] = differs.get(k, 0) + 1
-                if not r["refuted"] and k not in reported:
+                if not r["refuted"] and not r.get("guarded") and k not in reported:
                     # contradicts a theorem about the model: the model (or its rendering) misrepresents Python
                     reported.add(k)
                     res.disagree("srule-sound-vs-cpython", {"rule": label, "old": r["old"], "new": r["new"], "env": repr(combo)}, "old and new blocks agree (SSound)", [seen["old"], seen["new"]])
-        if r["refuted"] and not differs.get(k):
+        res.bump("lean_srules_guarded" if r.get("guarded") else ("lean_srules_refuted" if r["refuted"] else "lean_srules_proved"))
+        if (r["refuted"] or r.get("guarded")) and not differs.get(k):
             res.notes.append(f"refuted statement rule {label}: no sampled environment separates the blocks under CPython")
     for a, (label, which, block, combo, got, names) in zip(ctx.driver.batch(reqs), metas):
         res.case(("py_exec", label, which, repr(combo)))
